@@ -86,7 +86,8 @@ def cases(tier: str, seed: int) -> list[dict]:
     for conv in W.ALL_CONVS:
         for rep in range(1 if tier == "quick" else 4):
             if conv == "ugrid":
-                w = GW.mesh_world(W.mesh_from_squares([["Q", "A"], ["B", "N"]]), enc={"base": rep % 2, "fill": "nan"}, edges=rep % 2 == 1)
+                w = GW.mesh_world(W.mesh_from_squares([["Q", "A"], ["B", "N"]]), enc=[{"base": 1, "fill": "intfill", "fillvalue": -1}, {"base": 0, "fill": "nan"}, {"base": 1, "fill": "nan"},
+                                       {"base": 0, "fill": "intfill"}][rep % 4], edges=rep % 2 == 1)
             elif conv == "cf1d":
                 w = GW.structured_world(conv, 2, 3, bounds=rep % 2 == 0)
             else:
@@ -157,6 +158,7 @@ def execute(case: dict) -> dict:
     e["intimes"] = intimes
     e["inconv"] = type(conv).__name__
     e["infillattrs"] = fill_attrs_dataset(ds)
+    e["srcpolys"] = outcome(lambda: [polygon_vertices(p_) for p_ in conv.polygons])      # the dataset that is being saved
 
     def run():
         import netCDF4
